@@ -72,22 +72,33 @@ D9 = {"Beta": obj({"on": {"type": "boolean", "default": True}, "n": {"type": "in
 OPS.update({"R8": {"refs": D8}, "R9": {"refs": D9}, "R89": {"refs": dict(D8, **D9)}, "T14": {"type": {"$ref": "#/definitions/Alpha"}, "hint": None}})
 OPS.update({"R7": {"refs": D7}, "R7n": {"refs": {"Node": D7["Node"]}}, "R7o": {"refs": {"Other": D7["Other"]}},
             "T9": {"type": obj({"n": {"$ref": "#/definitions/Node"}, "w": STR}), "hint": "Other"}})
+# uses of ONE generic external path (x-rust-type; every crate allowed in this check's settings) with DIFFERENT parameter lists: each use is a type of its own,
+# whichever was added first
+def _ext(params):
+    return {"type": "object", "x-rust-type": {"crate": "std", "version": "1.0.0", "path": "std::option::Option", "parameters": params}}
+
+
+BOOL = {"type": "boolean"}
+OPS.update({"X1": {"type": obj({"v": _ext([STR])}, ["v"]), "hint": "HoldsText"}, "X2": {"type": obj({"v": _ext([BOOL])}, ["v"]), "hint": "HoldsFlag"},
+            "X3": {"refs": {"Pair": obj({"a": _ext([STR]), "b": _ext([INT])}, ["a", "b"])}}})
+HINT_NAMES.update({"X1": "HoldsText", "X2": "HoldsFlag"})
+SUB_EXT = ["X1", "X2", "X3", "T1", "R2"]
 SUB6 = ["R1", "R3", "T1", "T3", "T4", "T5", "T10", "T11", "T12", "T13"]
 SUB_ORDER = ["R6", "R6r", "R6z", "R6a", "R2", "T1", "R7", "R7n", "R7o", "T9", "R8", "R9", "R89", "T14"]
 SUB_ROOTS = ["ROOT3", "T6", "ROOT2", "T1", "R2", "T7", "T8"]
-DEFINES = {"R8": {"Alpha"}, "R9": {"Beta"}, "R89": {"Alpha", "Beta"}, "R7": {"Node", "Other"}, "R7n": {"Node"}, "R7o": {"Other"}, "R14": set(D1) | set(D4), "R6": set(D6), "R6r": set(D6), "R6z": {"Zest"}, "R6a": {"Apple"}, "R5": set(D5), "R1": set(D1), "R2": set(D2), "R3": set(D3), "R4": set(D4), "R12": set(D12), "ROOT1": set(D1) | {"Root1"}, "ROOT2": set(D2) | {"Root2"},
+DEFINES = {"X3": {"Pair"}, "R8": {"Alpha"}, "R9": {"Beta"}, "R89": {"Alpha", "Beta"}, "R7": {"Node", "Other"}, "R7n": {"Node"}, "R7o": {"Other"}, "R14": set(D1) | set(D4), "R6": set(D6), "R6r": set(D6), "R6z": {"Zest"}, "R6a": {"Apple"}, "R5": set(D5), "R1": set(D1), "R2": set(D2), "R3": set(D3), "R4": set(D4), "R12": set(D12), "ROOT1": set(D1) | {"Root1"}, "ROOT2": set(D2) | {"Root2"},
            "ROOT3": {"Root3"}}
 ROOT_TITLE = {"ROOT1": "Root1", "ROOT2": "Root2", "ROOT3": "Root3"}
 NEEDS_D1 = {"T4", "R5"}
 PROVIDES_D1 = {"R1", "R12", "ROOT1", "R14"}
 # pairs declared independent by the alphabet: disjoint definition names, no cross references, no coinciding inline names
-INDEPENDENT = {frozenset(p) for p in [("R8", "R9"), ("R8", "R2"), ("R9", "R2"), ("R8", "T1"), ("R9", "T1"), ("R8", "R6"), ("R9", "R7"), ("T12", "T13"), ("T12", "R3"), ("T13", "R3"), ("T12", "T10"), ("T12", "T1"),
+INDEPENDENT = {frozenset(p) for p in [("X1", "X2"), ("X1", "X3"), ("X2", "X3"), ("X1", "T1"), ("X2", "T1"), ("X3", "R2"), ("R8", "R9"), ("R8", "R2"), ("R9", "R2"), ("R8", "T1"), ("R9", "T1"), ("R8", "R6"), ("R9", "R7"), ("T12", "T13"), ("T12", "R3"), ("T13", "R3"), ("T12", "T10"), ("T12", "T1"),
                                       ("R1", "R2"), ("R1", "R3"), ("R2", "R3"), ("R3", "R4"), ("R2", "R4"), ("R3", "R12"),
                                       ("R3", "ROOT1"), ("R2", "T5"), ("R3", "T5"), ("R3", "T1"), ("R3", "T2"), ("R3", "T3") , ("R4", "T5"),
                                       ("R5", "R2"), ("R5", "R3"), ("R5", "ROOT2"), ("R5", "ROOT3"), ("R5", "T5"), ("R5", "T1"),
                                       ("ROOT1", "ROOT2"), ("ROOT1", "R2"), ("ROOT2", "R1"), ("ROOT2", "R3"), ("ROOT1", "ROOT3"), ("ROOT2", "ROOT3"),
                                       ("R1", "ROOT3"), ("R2", "ROOT3"), ("R3", "ROOT3"), ("R12", "ROOT3"), ("ROOT3", "T5"), ("ROOT3", "T1")]}
-TYPE_OPS = {"T1", "T2", "T3", "T4", "T5", "T6", "T7", "T8", "T9", "T10", "T11", "T12", "T13", "T14"}
+TYPE_OPS = {"X1", "X2", "T1", "T2", "T3", "T4", "T5", "T6", "T7", "T8", "T9", "T10", "T11", "T12", "T13", "T14"}
 
 
 def enabled(hist, op):
@@ -123,6 +134,7 @@ def cases(tier, seed):
         rec([], SUB6, 4)
         rec([], SUB_ORDER, 3)
         rec([], SUB_ROOTS, 4)
+        rec([], SUB_EXT, 3)
         out = tmp + [c for c in more if tuple(c["history"]) not in seen]
     else:
         rec([], ALPHABET, 4)
@@ -132,6 +144,7 @@ def cases(tier, seed):
         rec([], SUB6 + ["ROOT3", "R6"], 5)
         rec([], SUB_ORDER, 5)
         rec([], SUB_ROOTS, 5)
+        rec([], SUB_EXT, 5)
         out = tmp + [c for c in more if tuple(c["history"]) not in seen]
     seen2, res_ = set(), []
     for c in out:
@@ -154,7 +167,7 @@ def execute(cases_, tier, seed):
     res.rule = ("one case = one history (sequence of add_ref_types/add_root_schema/add_type_with_name calls) replayed on a fresh TypeSpace; "
                 "states = distinct canonical states (sorted items + live type table); non-trivial = history reaching a canonical state not "
                 "reached by any shorter history")
-    jobs = [{"id": c["key"], "settings": {}, "ops": [OPS[o] for o in c["history"]], "want": ["snapshots_compact"]} for c in cases_]
+    jobs = [{"id": c["key"], "settings": {"unknown_crates": "allow"}, "ops": [OPS[o] for o in c["history"]], "want": ["snapshots_compact"]} for c in cases_]
     ans = adapter.run_jobs(jobs)
     final_items = {}
     canon_states = {}
@@ -328,7 +341,7 @@ def execute(cases_, tier, seed):
     res.evaluations = len(cases_)
     res.extra.update({"histories": len(cases_), "commutation_checks": n_comm, "max_depth": max(len(c["history"]) for c in cases_)})
     res.samples = [c["history"] for c in cases_[:: max(1, len(cases_) // 5)]][:5]
-    res.bound = "tier=%s: all histories over the 22-op alphabet (26 ops in the ordering sub-alphabet's space) to depth %s" % (tier, "3 (and depth 4 over a 6-op, depth 3 over the 6-op ordering sub-alphabet)" if tier == "quick" else "4 (and depth 5 over an 8-op and the 6-op ordering sub-alphabet)")
+    res.bound = "tier=%s: all histories over the 22-op alphabet (26 ops in the ordering sub-alphabet's space) to depth %s" % (tier, "3 (and depth 4 over a 6-op, depth 3 over the 6-op ordering sub-alphabet, depth 3 over the 5-op external-path sub-alphabet)" if tier == "quick" else "4 (and depth 5 over an 8-op, the 6-op ordering and the 5-op external-path sub-alphabets)")
     res.assumptions = ["histories are not extended past an op that returns Err (documented: the space is unspecified after an error)"]
     if not res.violations and (len(cases_) > 50 and (len(canon_states) < 30 or n_comm < 10)):   # a subject that breaks everything is reported through its violations, not as vacuity
         raise MachineryError("vacuity guard: states=%d commutation checks=%d" % (len(canon_states), n_comm))
